@@ -50,12 +50,10 @@ pub fn pre_wake(fd: i32, is_send: bool) {
             sim::count(sim::C_WAKE_EAGAIN, 1);
             let fl = libc::fcntl(fd, libc::F_GETFL, 0);
             if !is_send && fl != -1 && (fl & libc::O_NONBLOCK) == 0 && r >= 0 && (p.revents & (libc::POLLERR | libc::POLLNVAL | libc::POLLHUP)) == 0 {
-                sim::report(
-                    "C13",
-                    "wake-would-block",
-                    &format!("self-pipe wake uses write(2) on descriptor {} which is full and not O_NONBLOCK: the signal handler would block forever", fd),
-                    true,
-                );
+                let _g = sim::ShimGuard::new();
+                let msg = format!("self-pipe wake uses write(2) on descriptor {} which is full and not O_NONBLOCK: the signal handler would block until somebody reads (forever if the reader is the interrupted thread)", fd);
+                sim::report("C03", "handler-would-block", &msg, false);
+                sim::report("C13", "wake-would-block", &msg, true);
             }
         }
     }
